@@ -16,6 +16,7 @@ import (
 	"os"
 	"os/exec"
 	"path/filepath"
+	"runtime/debug"
 	"sort"
 	"strconv"
 	"strings"
@@ -280,6 +281,7 @@ func (s *Session) Finish() {
 	res.Distinct = len(seen)
 	res.Evaluations = len(lines) + s.nEval
 	const maxReport = 25
+	perClass := map[string]int{} // cap per finding class, so that known-class cases cannot crowd out a new one
 	for k, i := range idx {
 		if answers == nil {
 			break
@@ -292,7 +294,15 @@ func (s *Session) Finish() {
 			if m == c.impl {
 				kind = "property"
 			}
-			if len(res.Mismatches) < maxReport || (!c.propOK && len(res.Mismatches) < 4*maxReport) {
+			lim := maxReport
+			if c.class != "" {
+				lim = 3
+			}
+			if !c.propOK && c.class == "" {
+				lim = 4 * maxReport
+			}
+			if perClass[c.class] < lim {
+				perClass[c.class]++
 				res.Mismatches = append(res.Mismatches, Mismatch{Case: c.line, Human: c.human, Model: m, Impl: c.impl, PropOK: c.propOK, Class: c.class, Kind: kind})
 			}
 		}
@@ -300,7 +310,12 @@ func (s *Session) Finish() {
 	sort.SliceStable(res.Mismatches, func(i, j int) bool { return !res.Mismatches[i].PropOK && res.Mismatches[j].PropOK })
 	for _, m := range s.extra {
 		res.NMismatch++
-		if len(res.Mismatches) < 2*maxReport {
+		lim := 2 * maxReport
+		if m.Class != "" {
+			lim = 3
+		}
+		if perClass["x:"+m.Class] < lim {
+			perClass["x:"+m.Class]++
 			res.Mismatches = append(res.Mismatches, m)
 		}
 	}
@@ -368,7 +383,10 @@ func RandBytes(r *rand.Rand, n int, alphabet string) string {
 func Safely(f func()) (panicText string, panicked bool) {
 	defer func() {
 		if r := recover(); r != nil {
-			panicText = fmt.Sprint(r)
+			panicText = fmt.Sprint(r) + "\n" + string(debug.Stack())
+			if len(panicText) > 6000 {
+				panicText = panicText[:6000]
+			}
 			panicked = true
 		}
 	}()
